@@ -78,6 +78,10 @@ def run(chk, replay=None):
     if insts:
         for (j, rr, e, case), m in zip(meta, cl.run_model(insts)):
             if m["check"] != 1: chk.violation("check_schedule-rejects", f"episode {e}: check_schedule rejects rex's Timings of the recorded graph", case)
+            if m.get("checkreplay") != 1:
+                chk.violation("replay-not-a-dataflow-solution", f"episode {e}: check_replay (hypothesis of C01_replay_unique) rejects rex's Timings / ring sizes: "
+                              "some executed row does not take its state or a window payload from the scheduled producer, or a vertex is executed twice", case)
+            else: chk.feat("check_replay-accepts")
             d = cl.compare_rows(j["cfg"], rr["episodes"][e], m)
             if d: chk.broke("correspondence:M3-vs-Graph", f"{d} | job={j['id']}")
     chk.extra["rule"] = ("lattice graphs with probe nodes (all connection policies) are run for 1-3 episodes of different lengths by the threaded runtime with "
